@@ -352,7 +352,12 @@ class BehavioralRTLIRToVVisitorL1( bir.BehavioralRTLIRNodeVisitor ):
           return one_bit_template.format( **locals() )
 
     elif isinstance( node.value, bir.Index ):
-      _one_bit = True
+      # Indexing a signal selects one bit; indexing an array selects an element
+      _one_bit = not isinstance( node.value.value.Type, rt.Array )
+    elif not isinstance( node.value, ( bir.Attribute, bir.LoopVar, bir.TmpVar ) ):
+      # The sign bit of a constant or of a compound expression cannot be
+      # selected with [msb]; let a signed cast do the extension instead
+      return f"{target_nbits}'($signed({value}))"
     else:
       _one_bit = False
 
